@@ -39,9 +39,9 @@ func InflateGraph(t *rapid.T, m *Model) string {
 	if len(obj) == 0 {
 		return ""
 	}
-	dim := rapid.SampledFrom([]string{"types", "operands", "ttu-fanout", "restrictions", "wildcards", "parents", "chain", "conditions", "relations"}).Draw(t, "scaleDim")
+	dim := rapid.SampledFrom([]string{"types", "operands", "ttu-fanout", "restrictions", "wildcards", "parents", "chain", "conditions", "relations", "ring"}).Draw(t, "scaleDim")
 	n := rapid.SampledFrom(ScaleCounts).Draw(t, "scaleN")
-	if dim != "parents" && dim != "chain" && rapid.IntRange(0, 5).Draw(t, "scaleLarge") == 0 {
+	if dim != "parents" && dim != "chain" && dim != "ring" && rapid.IntRange(0, 5).Draw(t, "scaleLarge") == 0 {
 		n = rapid.SampledFrom([]int{63, 64, 65, 66, 100, 127, 128, 129, 255, 256, 257, 300}).Draw(t, "scaleNLarge") // the next thresholds, up to one past a byte
 	}
 	ti := obj[rapid.IntRange(0, len(obj)-1).Draw(t, "scaleType")]
@@ -219,10 +219,36 @@ func InflateGraph(t *rapid.T, m *Model) string {
 			m.Types[ti].Rels[0].Restr = append(m.Types[ti].Rels[0].Restr, x)
 		}
 		ensureConds(m)
+	case "ring":
+		// N relations in a ring: every one refers to the next (the last to the first) by a computed userset, by a
+		// tuple-to-userset, or by both; with a computed link everywhere the ring is a tuple-free rewrite cycle through N
+		// relation nodes (and N operator nodes), with one hop somewhere it is a tuple cycle with exits
+		n = rapid.SampledFrom([]int{3, 8, 17, 33, 64, 65, 127, 128, 129, 130, 200, 257}).Draw(t, "scaleRingN")
+		td.Rels[0].Restr = append([]Restriction{{Type: td.Name}}, td.Rels[0].Restr...)
+		nm := func(i int) string { return fmt.Sprintf("rg%03d", i%n) }
+		mode := rapid.IntRange(0, 3).Draw(t, "scaleRingMode") // 0: computed + ttu everywhere; 1: computed everywhere; 2: one link is a ttu only; 3: ttu everywhere
+		hop := rapid.IntRange(0, n-1).Draw(t, "scaleRingHop")
+		for i := 0; i < n; i++ {
+			u := &Rewrite{Kind: Union, Kids: []*Rewrite{{Kind: This}}}
+			comp := &Rewrite{Kind: Computed, Rel: nm(i + 1)}
+			ttu := &Rewrite{Kind: TTU, Rel: nm(i + 1), Tupleset: "p"}
+			switch {
+			case mode == 0:
+				u.Kids = append(u.Kids, ttu, comp)
+			case mode == 1, mode == 2 && i != hop:
+				u.Kids = append(u.Kids, comp)
+			default:
+				u.Kids = append(u.Kids, ttu)
+			}
+			td.Rels = append(td.Rels, Relation{Name: nm(i), Rw: u, Restr: []Restriction{{Type: term}}})
+		}
 	case "chain":
 		n = rapid.SampledFrom(ScaleCountsLarge).Draw(t, "scaleChainN")
+		if rapid.IntRange(0, 7).Draw(t, "scaleChainHuge") == 0 {
+			n = rapid.SampledFrom([]int{255, 256, 257, 1023, 1024, 1025, 1500}).Draw(t, "scaleChainNHuge")
+		}
 		td.Rels[0].Restr = append([]Restriction{{Type: td.Name}}, td.Rels[0].Restr...)
-		nm := func(i int) string { return fmt.Sprintf("ch%03d", i) }
+		nm := func(i int) string { return fmt.Sprintf("ch%04d", i) }
 		mode := rapid.IntRange(0, 3).Draw(t, "scaleChainMode") // 0 rewrites only, 1 usersets, 2 TTUs, 3 mixed
 		for i := 0; i < n; i++ {
 			rd := Relation{Name: nm(i)}
